@@ -49,6 +49,10 @@ func (Engine) Generate(r *core.Rng, property, tier string) *core.Plan {
 			// 31; only Schnorr withdrawals can name that many arbiters
 			p.SetKnob("wdarbiters", int64(r.Range(33, 36)))
 		}
+		if property == "C31" || property == "C33" && r.Bool(0.3) {
+			// side-chain deposit returns (all payload versions) next to withdrawals
+			p.SetKnob("ccreturns", 1)
+		}
 	}
 	if property == "C31" || property == "C33" || p.Knob("wdarbiters", 0) > 0 || property == "C05" && r.Bool(0.3) {
 		// a cross-chain ('X') address holding deposits, and the emergency
@@ -275,6 +279,14 @@ func (g *gen) wdTx() TxSpec {
 		case 2:
 			w.DupIn = true
 		}
+	}
+	if g.p.Knob("ccreturns", 0) > 0 && r.Bool(0.45) {
+		// a deposit return: legacy (0), Schnorr (1), or a version nobody defined
+		w.Ret = 1 + r.Pick(5, 2, 3)
+		if w.Ret == 3 {
+			w.Ret = 3 + []int{0, 1, 2, 5, 125, 126, 253}[r.Intn(7)]
+		}
+		w.Auth, w.DupIn = 0, false
 	}
 	t.Wd = w
 	return t
